@@ -16,6 +16,7 @@ INF = float("inf")
 _ATOM_IDS = {}
 _ATOM_KEYS = []
 _ATOM_RANGE = {}
+_WIDEN_COUNT = {}
 
 
 def atom(key, rng=None):
@@ -42,6 +43,7 @@ def reset_atoms():
     _ATOM_IDS.clear()
     del _ATOM_KEYS[:]
     _ATOM_RANGE.clear()
+    _WIDEN_COUNT.clear()
 
 
 def ty_range(ty):
@@ -786,6 +788,7 @@ class Joiner:
         self.s2 = s2
         self.widen = widen
         self.thr = thresholds
+        self.structs = []   # (value1, value2, joined) of structs seen at a loop-head join
         self.changed = []   # (alpha, lin1, lin2)
         self.kept = set()   # atoms kept identical
         self.out = State()
@@ -821,6 +824,8 @@ class Joiner:
         self._defs()
         if self.diffs:
             self._diffs()
+        if self.structs:
+            self._templates()
         self.out.created = self.s1.created | self.s2.created | {a for a, _, _ in self.changed}
         return self.out
 
@@ -899,42 +904,117 @@ class Joiner:
                 out.facts.add(eq)
                 out.facts.add(eq.neg())
 
+    @staticmethod
+    def _intish(v):
+        """Integer-like components of a struct field: the value itself, the
+        ghost length of a Vec/array, the position of a Cursor."""
+        if isinstance(v, IntV):
+            return [v.lin]
+        if isinstance(v, ArrV) and isinstance(v.length, IntV):
+            return [v.length.lin]
+        if isinstance(v, CursorV):
+            out = []
+            if isinstance(v.pos, IntV):
+                out.append(v.pos.lin)
+            if isinstance(v.inner, ArrV) and isinstance(v.inner.length, IntV):
+                out.append(v.inner.length.lin)
+            return out
+        return []
+
+    def _templates(self):
+        """Relational object invariants: for the integer-like fields of a struct
+        that changed at this join, keep f <= g and f < g when they hold on both
+        sides (Houdini over a small template)."""
+        s1, s2, out = self.s1, self.s2, self.out
+        for a, b, r in self.structs:
+            if isinstance(r, CursorV):
+                fa, fb, fr_ = self._intish(a), self._intish(b), self._intish(r)
+            else:
+                fa = [x for f in a.fields for x in self._intish(f)]
+                fb = [x for f in b.fields for x in self._intish(f)]
+                fr_ = [x for f in r.fields for x in self._intish(f)]
+            if not (len(fa) == len(fb) == len(fr_)) or len(fr_) < 2 or len(fr_) > 10:
+                continue
+            n = len(fr_)
+            for i in range(n):
+                for j in range(n):
+                    if i == j:
+                        continue
+                    if fa[i] == fb[i] and fa[j] == fb[j]:
+                        continue        # neither changed: ordinary fact handling
+                    for c in (1, 0):
+                        g = fr_[j].sub(fr_[i]).addc(-c)     # f_i + c <= f_j
+                        if not g.d or out.lb(g) >= 0:
+                            if out.lb(g) >= 0:
+                                break
+                            continue
+                        g1 = fa[j].sub(fa[i]).addc(-c)
+                        g2 = fb[j].sub(fb[i]).addc(-c)
+                        if s1.prove(g1, 1) and s2.prove(g2, 1):
+                            out.facts.add(g)
+                            break
+
     def _diffs(self):
-        """Octagon-style inference at joins: for pairs of changed integers,
-        keep the best common lower bound of their difference."""
+        """Induction variables that advance by the same constant step keep
+        their pairwise differences across a loop-head join."""
         ch = self.changed
-        if len(ch) < 2 or len(ch) > 14:
+        if len(ch) < 2:
             return
         s1, s2, out = self.s1, self.s2, self.out
-        for i in range(len(ch)):
-            ai, l1i, l2i = ch[i]
-            for j in range(len(ch)):
-                if i == j:
-                    continue
-                aj, l1j, l2j = ch[j]
-                c1 = s1.iv2(l1i.sub(l1j))[0]
-                if c1 == -INF:
-                    continue
-                c2 = s2.iv2(l2i.sub(l2j))[0]
-                if c2 == -INF:
-                    continue
-                c = min(c1, c2)
-                g = Lin({ai: 1, aj: -1}, -c)
-                if out.lb(g) >= 0:
-                    continue
-                out.facts.add(g)
+        groups = {}
+        for al, l1, l2 in ch:
+            d = l2.sub(l1)
+            if d.d:
+                continue
+            if d.c != 0:
+                groups.setdefault(d.c, []).append((al, l1, l2))
+        for step, g in groups.items():
+            if len(g) < 2 or len(g) > 12:
+                continue
+            for i in range(len(g)):
+                ai, l1i, _ = g[i]
+                for j in range(len(g)):
+                    if i == j:
+                        continue
+                    aj, l1j, _ = g[j]
+                    lo = s1.iv2(l1i.sub(l1j))[0]
+                    if lo == -INF:
+                        continue
+                    f = Lin({ai: 1, aj: -1}, -lo)
+                    if out.lb(f) < 0:
+                        out.facts.add(f)
 
     def _widen(self, a, old, new):
+        """Per-atom delayed widening with thresholds: an atom's bound may grow
+        twice freely; the third growth goes to the next threshold that is at
+        least 1.5x away, the fourth at least 16x, the fifth to the type bound."""
         lo, hi = new
         tl, th = atom_range(a)
-        if lo < old[0]:
-            c = [t for t in self.thr if t <= lo] if self.thr else []
-            lo = max(c) if c else tl
-            lo = max(lo, tl)
         if hi > old[1]:
-            c = [t for t in self.thr if t >= hi] if self.thr else []
-            hi = min(c) if c else th
-            hi = min(hi, th)
+            n = _WIDEN_COUNT.get((a, 1), 0) + 1
+            _WIDEN_COUNT[(a, 1)] = n
+            if n >= 6 or old[1] == INF:
+                hi = th
+            elif n >= 3:
+                want = max(hi, int(old[1] * 1.5) if n == 3 else (hi if n == 4 else int(old[1] * 16)))
+                c = [t for t in self.thr if t >= want] if self.thr else []
+                hi = min(c) if c else th
+                hi = min(hi, th)
+        if lo < old[0]:
+            n = _WIDEN_COUNT.get((a, 0), 0) + 1
+            _WIDEN_COUNT[(a, 0)] = n
+            if n >= 6 or old[0] == -INF:
+                lo = tl
+            elif n >= 3:
+                want = lo
+                f = 1.5 if n == 3 else (1 if n == 4 else 16)
+                if old[0] > 0:
+                    want = min(lo, int(old[0] / f))
+                elif old[0] < 0:
+                    want = min(lo, int(old[0] * f))
+                c = [t for t in self.thr if t <= want] if self.thr else []
+                lo = max(c) if c else tl
+                lo = max(lo, tl)
         return lo, hi
 
     def jint(self, a, b, path):
@@ -981,8 +1061,11 @@ class Joiner:
         if ta is StructV:
             if a.name != b.name or len(a.fields) != len(b.fields):
                 return TopV()
-            return StructV(a.name, [self.jv(x, y, path + (("f", i),))
-                                    for i, (x, y) in enumerate(zip(a.fields, b.fields))])
+            r = StructV(a.name, [self.jv(x, y, path + (("f", i),))
+                                 for i, (x, y) in enumerate(zip(a.fields, b.fields))])
+            if a.name is not None:
+                self.structs.append((a, b, r))
+            return r
         if ta is ClosureV:
             if a.defk != b.defk or len(a.fields) != len(b.fields):
                 return TopV()
@@ -1039,8 +1122,10 @@ class Joiner:
         if ta is BoxV:
             return BoxV(self.jv(a.inner, b.inner, path + (("box",),)))
         if ta is CursorV:
-            return CursorV(self.jv(a.inner, b.inner, path + (("cin",),)),
-                           self.jv(a.pos, b.pos, path + (("cpos",),)))
+            r = CursorV(self.jv(a.inner, b.inner, path + (("cin",),)),
+                        self.jv(a.pos, b.pos, path + (("cpos",),)))
+            self.structs.append((a, b, r))
+            return r
         if ta is OpaqueV:
             return a
         if ta is FnV:
